@@ -85,10 +85,26 @@ def refuse_region_ok(chk, f, rule, inst, start_bb, err_agg, traffic):
     chk.require(not bad_traffic, rule + "/no-traffic", inst,
                 "a refused call still reaches terminal traffic at %s" % [f.sp(b) for b in bad_traffic],
                 "no traffic after refusal", f.sp(start_bb))
-    rets = [(bb, e) for bb, e in f.ret_writes() if bb in reach]
-    ok = rets and all(f.classify_ret(e) == "err" and f.contains_agg(e, err_agg) for bb, e in rets)
+    # what is returned on each feasible path from the refusal edge (symbolic evaluation: the error may be built
+    # in a helper and handed on with `?`)
+    import pathsym as ps
+    pe = ps.PathEval(f.b)
+    rets = []
+    for r in sorted(reach):
+        if f.b.blocks[r]["term"]["t"] != "return":
+            continue
+        for path in ps.simple_paths(f.b, start_bb, r):
+            env, _ = pe.run(path)
+            rets.append(ps.norm(env.get(0, ("konst", "no return value"))))
+
+    def is_refusal(e):
+        errs = [x for x in ps.walk(e) if x[0] == "agg" and str(x[1]).endswith("Result::Err")]
+        named = [x for x in ps.walk(e) if x[0] == "agg" and x[1] == err_agg]
+        oks = e[0] == "agg" and str(e[1]).endswith("Result::Ok")
+        return bool(errs) and bool(named) and not oks
+    ok = rets and all(is_refusal(e) for e in rets)
     chk.require(ok, rule + "/error", inst,
-                "the refused call does not fail with %s: returns %s" % (err_agg, [show(e)[:120] for _, e in rets]),
+                "the refused call does not fail with %s: returns %s" % (err_agg, [ps.show(e)[:120] for e in rets if not is_refusal(e)][:3]),
                 "Err(%s)" % err_agg.rsplit("::", 1)[-1], f.sp(start_bb))
 
 
